@@ -29,6 +29,8 @@ encoded=False)`, any of the modifiers (`with_path` with `encoded=False`) with Py
 Continued in C12HeadlineMore3.lean (GAPS 9: the clauses over `ReachE`, the closure of ALL entry points incl. `encoded=True`,
 C12ReachE.lean; tail of GAPS 6: non-str keys, wrong-typed values and arguments in every container — MODEL-LEVEL, over the
 dynamic-dispatch model YarlModel/Dyn.lean, C12Dyn.lean).
+Continued further in C12HeadlineMore4.lean (headline theorems for the proof modules added after the last refresh:
+C12Spec.lean; the GAPS block below cites them).
 -/
 namespace Yarl
 open QsLemmas MdLemmas QueryUrl QsMore
@@ -490,6 +492,29 @@ GAPS:
  5. "replaces all pairs whose key occurs in q" is FALSE in general (multidict stale duplicate); proved
     only under the no-tail guard, plus the unguarded prefix/sublist description.  (= F-C12-multidict-tail; now also for
     list-valued mappings, `.mapping` and `.str` arguments.)
+    SHARPENED (the clause stays FALSE as stated: KNOWN FINDING F-C12-multidict-tail) by C12_mdUpdate_eq_spec_iff,
+    C12_mdUpdate_ne_spec_of_stale, C12_mdUpdate_first_stale, C12_mdUpdateSpec_sublist, C12_mdUpdate_extra_pairs,
+    C12_spec_keeps_others, C12_spec_sets_keys, C12_spec_pairs_of_key, C12_spec_shape, C12_spec_in_place,
+    C12_staleFree_of_no_surplus, _of_old_unrepeated, _of_nodup, _of_one_surplus_key, _single_key, _of_surplus_late,
+    C12_url_update_query_spec, _spec_mapping, _spec_str, _spec_lists, C12_reach_update_query_spec (C12Spec.lean), see
+    C12_headline_multidict_update_is_spec_iff, C12_headline_spec_satisfies_update_clauses, C12_headline_spec_positions,
+    C12_headline_update_differs_only_by_stale_pairs, C12_headline_update_first_stale_pair,
+    C12_headline_staleFree_examples, C12_headline_staleFree_sufficient, C12_headline_staleFree_of_surplus_late,
+    C12_headline_update_query_spec, _update_query_spec_lists, _update_query_spec_reachable,
+    C12_headline_reachE_update_query_spec, C12_headline_update_query_spec_fails_for_stale_duplicate
+    (C12HeadlineMore4.lean).  The failure is now characterised EXACTLY, not by one witness plus a sufficient guard:
+    for ALL lists `mdUpdate old arg = mdUpdateSpec old arg ↔ StaleFree old arg`, where `mdUpdateSpec` is a hand-written
+    specification that satisfies "replaces all pairs whose key occurs in q" and "keeps every other pair in order"
+    literally and without guard, and `StaleFree` is a decidable condition on the two lists (both NEW TRUSTED
+    definitions: item 11).  At URL level (pair sequence, single-valued mapping, string; hypotheses as before:
+    `GoodPairs` of the argument and of the old query, non-empty argument) the resulting pairs are the specified ones
+    IFF `StaleFree (queryPairs u) ps`, and then every updated key has exactly the argument's pairs.  When `StaleFree`
+    fails: the first old pair failing the check is a surplus pair (of an updated key, beyond the number of new values)
+    and survives at its place; in every case the specified result is a subsequence of the actual one and per key the
+    actual values are the specified ones followed by stale old values.  The old guard `htail` ("every OTHER updated
+    key has at most as many old pairs as new ones") is one of the proved sufficient conditions for `StaleFree`
+    (`_of_one_surplus_key`).  For list-valued mappings only the direction `StaleFree` (of the SLOT lists) ⟹ specified is
+    stated at URL level.
  6. PARTLY CLOSED by C12_pairs_bad_value_rejected, C12_update_query_mapping_bad_value_rejected, C12_update_query_pairs_bad_kind,
     C12_update_query_mapping_bad_kind, C12_slotErr_kinds (C12More.lean), see C12_headline_rejects_values_pairs,
     C12_headline_update_query_rejects_values_mapping, C12_headline_update_query_rejects_same_kind,
@@ -522,6 +547,11 @@ GAPS:
     by with_query / extend_query as the text "None" but rejected by update_query (C12_headline_dyn_none_key_differs; an
     observation — the property text speaks of None VALUES); a non-str key whose value is an EMPTY list / tuple is not
     noticed by with_query / extend_query (C12_headline_dyn_empty_value_hides_key).  STILL OPEN: item 10 (a).
+    FURTHER (cross-reference, MODEL-LEVEL, not imported here): `without_query_params(*names)` with ARBITRARY name
+    objects is treated in C19DynBuild.lean over YarlModel/DynBuild.lean — C19_dynWithoutQueryParams, see
+    C19_headline_dyn_without_query_params (C19HeadlineMore4.lean): str (subclass) names give the typed function of this
+    file; the only failure is TypeError, iff some name is unhashable; hashable non-str names are silently ignored.
+    Trusted base: C19Headline.lean GAPS 8 (DynBuild.lean is a hand transcription, tied to CPython by its probe table).
  7. CLOSED by C12_constructor_goodpairs, C12_reach_without_query_params, C12_reach_update_is_multidict_update (C12More.lean,
     via C01_reachable_wf), see C12_headline_reachable_good_pairs, C12_headline_without_query_params_reachable,
     C12_headline_update_is_multidict_update_reachable.  `GoodPairs (queryPairs u)` holds for every URL in `Reach e` (constructor
@@ -534,6 +564,15 @@ GAPS:
     `dynQueryKw` — a mapping with str keys, no keyword at all = `.noArgs` — covered by C12_headline_dyn_rejects_values; and
     `Dyn.mdPair`, a hand model of the per-element validation of the C implementation of `MultiDict.update`, with the same
     status as `mdUpdate`.  "Both positional and keyword arguments given" is still not modelled.)
+    PARTLY CLOSED by C12_mdUpdate_eq_spec_iff, C12_mdUpdateSpec_sublist, C12_mdUpdate_extra_pairs (C12Spec.lean), see
+    C12_headline_multidict_update_is_spec_iff, C12_headline_update_differs_only_by_stale_pairs,
+    C12_headline_update_spec_def, C12_headline_update_spec_examples (C12HeadlineMore4.lean).  Proved: the iterative
+    transcription `mdUpdate` (two loops with a `used` table) is tied to a NON-ITERATIVE specification `mdUpdateSpec`
+    (rank-wise overwrite in place / delete surplus / append the rest): equal exactly on the `StaleFree` inputs, and in
+    every case the specified list is a subsequence of `mdUpdate`'s.  So WHAT `mdUpdate` computes is now known in closed
+    form, relative to the reading of `mdUpdateSpec` / `StaleFree` (item 11).  STILL OPEN: there is no proof link from
+    `mdUpdate` (or from `mdUpdateSpec`) to multidict's source or documentation — `mdUpdate` is checked against the real
+    library by the differential harness only; the kwargs-vs-positional remark above is unchanged.
  9. `Reach` does not contain URLs made or modified with `encoded=True` (`URL(s, encoded=True)`, `build(encoded=True)`,
     `with_path(…, encoded=True)`); for those no theorem of THIS file discharges `hold` (and for `URL(s, encoded=True)` it can
     fail: `surrUrl`).
@@ -565,5 +604,25 @@ GAPS:
     from C12_headline_update_keeps_others_mapping_str / _replaces_mapping_str with `hold` from
     C12_headline_reachE_good_pairs); with_query / extend_query with a string argument need no hypothesis on `u` at all
     (C12_headline_with_query_str, C12_headline_extend_query_str).
+11.  NEW.  Trusted definitions and side conditions introduced by the theorems that sharpen 5 and partly close 8
+    (C12Spec.lean).  (a) `mdUpdateSpec` (with `ranked`) is a hand-written SPECIFICATION of what
+    `MultiDict(old).update(arg)` is meant to do; that it is the intended behaviour of multidict is a matter of READING
+    (spelled out by `rfl` and on three inputs: C12_headline_update_spec_def, C12_headline_update_spec_examples); what is
+    PROVED about it is that it satisfies the two update_query clauses of C12 without guard and where it sits
+    (C12_headline_spec_satisfies_update_clauses, C12_headline_spec_positions).  In particular its POSITIONAL choices
+    (overwrite in place by rank; appended pairs in argument order) are part of the definition, not derived from the
+    property text, which only says "in order" for the pairs that are kept.  (b) `StaleFree` (with `isSurplus`,
+    `surplusBefore`, `staleFreeAt`) is a `Prop`-valued, decidable predicate whose reading must be trusted; an equivalent
+    split form is proved (C12_headline_staleFree_def) and four inputs are computed (C12_headline_staleFree_examples).
+    It speaks about POSITIONS in the old list (it is not a per-key count condition): the same multiset of old pairs can
+    be `StaleFree` in one order and not in another (`a=1&b=3&a=2&b=4` is, `a=1&a=2&b=3&b=4` is not).  (c) At URL level
+    the iff is stated for a pair sequence, a single-valued mapping and a string (hypotheses `SingleValued items`,
+    `GoodPairs ps`, `GoodPairs (queryPairs u)`, `ps ≠ []` resp. `GoodText s`, `s ≠ []`); for a mapping with list/tuple
+    values only the implication from `StaleFree (strItems (queryPairs u)) items` — a condition on SLOTS, not on the
+    expanded pairs — is stated (C12_headline_update_query_spec_lists); over `ReachE` only the pair-sequence form is
+    restated (C12_headline_reachE_update_query_spec, hypothesis `NoSurrogate u.query` as in 9).  (d) All this is about
+    the model function `mdUpdate`: that the REAL multidict 6.2 fails exactly on the non-`StaleFree` inputs is not proved
+    (item 8); the differential harness compares `mdUpdate` with the library on the inputs it generates, and whether
+    those include non-`StaleFree` inputs other than the known witness was not examined for this item.
 -/
 end Yarl
